@@ -3,6 +3,8 @@
 // verif:target internal/storage/inmem
 package inmem
 
+import "sync"
+
 // VerifDrainOne publishes exactly one queued event batch of the store's private
 // publisher (Store.Run is not started in step mode).
 func (s *Store) VerifDrainOne() bool { return s.pub.VerifDrainOne() }
@@ -12,3 +14,30 @@ func (s *Store) VerifPending() int { return s.pub.VerifPending() }
 
 // VerifCloseAll ends every watch (what Run does when its context ends).
 func (s *Store) VerifCloseAll() { s.pub.VerifCloseAll() }
+
+// VerifYield, when a world installs it, is called at the yield points of the
+// store's mutating operations (inserted by bin/vbuild.py): after the memdb
+// commit and before the event is handed to the publisher, and while waiting for
+// eventLock. The function parks the calling goroutine until the simulator's
+// scheduler resumes it, so the scheduler decides every interleaving of
+// concurrent operations at those points.
+var VerifYield func(point string)
+
+func verifYield(point string) {
+	if f := VerifYield; f != nil {
+		f(point)
+	}
+}
+
+// verifLock takes mu. Under the simulator a goroutine never blocks inside the
+// mutex (the scheduler could not see that): it parks at the "lock-wait" yield
+// point and tries again when it is resumed.
+func verifLock(mu *sync.Mutex) {
+	if VerifYield == nil {
+		mu.Lock()
+		return
+	}
+	for !mu.TryLock() {
+		VerifYield("lock-wait")
+	}
+}
